@@ -2,6 +2,7 @@ SPECIFICATION Spec
 CONSTANT MaxCalls = 4
 VIEW hview
 INVARIANT LookAheadIsInvisible
+INVARIANT MessagesOnce
 INVARIANT SwitchAwayAndBack
 INVARIANT OthersUntouched
 INVARIANT SaveLoadIdentity
